@@ -44,6 +44,7 @@ pub struct RandCfg {
     pub regime: String,  // causal | free
     pub mdk: MdkConfig,
     pub profile: String, // core | ...
+    pub restarts: bool,
 }
 
 fn fingerprint(post: &Value) -> String {
@@ -176,6 +177,8 @@ pub fn random_history(cfg: &RandCfg, rng: &mut StdRng, r: &mut Recorder, clients
             }
             used_ranks.insert(ts * 100 + rk);
             Some(exec_action(&mut w, &json!({"op":"Commit","c":c,"g":g,"kind":kind,"arg":arg,"ts":ts,"rank":rk})))
+        } else if cfg.restarts && roll >= 96 && w.clients[&c].backend == "sql" {
+            Some(exec_action(&mut w, &json!({"op":"Restart","c":c})))
         } else if roll < 26 {
             Some(exec_action(&mut w, &json!({"op":"Merge","c":c,"g":g})))
         } else if roll < 28 {
